@@ -5,3 +5,4 @@ python3-vt -c "import z3; print('z3', z3.get_version_string())"
 /venv/bin/python -c "import sys; print('oracle python', sys.version.split()[0])"
 test -d /repo/src/ckl
 mkdir -p /verif/evidence /verif/replays
+(command -v cvc5 >/dev/null && cvc5 --version | head -1) || echo "cvc5 binary not found: the FP obligations of C17 (thorough) fall back to z3"
